@@ -113,6 +113,20 @@ def precond_kwargs(cfg, scale_holder=None):
     return kw
 
 
+def perturbed_kwargs(kw, rng):
+    """Constructor arguments of a FRESH preconditioner that is going to load a checkpoint: every scalar (non-callable)
+    hyper-parameter is given another value than the saved run had; load_state_dict must restore the saved ones. Callables
+    are not part of the state and stay as they are."""
+    kw = dict(kw)
+    for k, f in (('damping', lambda v: v * 3 + 1e-3), ('factor_decay', lambda v: 0.77 if v != 0.77 else 0.5), ('lr', lambda v: v * 2 + 0.01),
+                 ('factor_update_steps', lambda v: v + 1), ('inv_update_steps', lambda v: v + 2)):
+        if not callable(kw[k]) and rng.random() < 0.7:
+            kw[k] = f(kw[k])
+    if not callable(kw['kl_clip']) and rng.random() < 0.7:
+        kw['kl_clip'] = 0.001 if kw['kl_clip'] is None else rng.choice([None, kw['kl_clip'] * 5])
+    return kw
+
+
 def ref_hp(cfg):
     return dict(F=mk(cfg['F']), I=mk(cfg['I']), damping=mk(cfg['damping']), decay=mk(cfg['decay']), kl=mk(cfg['kl']), lr=mk(cfg['lr']))
 
